@@ -605,6 +605,52 @@ func ruleContextPositionTests(c *core.Ctx) {
 //
 // and returns T and the first statement of <rest>.
 func commaOkCase(info *types.Info, body *ast.BlockStmt, nodeAliases map[types.Object]bool) (types.Type, ast.Stmt) {
+	descendsOnly := func(b *ast.BlockStmt) bool {
+		d := false
+		for _, st := range b.List {
+			if es, ok := st.(*ast.ExprStmt); ok {
+				if ce, ok := es.X.(*ast.CallExpr); ok {
+					if sel, ok := ast.Unparen(ce.Fun).(*ast.SelectorExpr); ok && sel.Sel.Name == "VisitChildren" {
+						d = true
+						continue
+					}
+				}
+			}
+			if _, ok := st.(*ast.ReturnStmt); ok {
+				continue
+			}
+			return false
+		}
+		return d
+	}
+	// if x, ok := node.(T); ok { <T> } else { self.VisitChildren(node) }   (assertion in the init or just in front)
+	for i, st := range body.List {
+		ifs, ok := st.(*ast.IfStmt)
+		if !ok || i > 1 {
+			break
+		}
+		var as *ast.AssignStmt
+		if ifs.Init != nil {
+			as, _ = ifs.Init.(*ast.AssignStmt)
+		} else if i == 1 {
+			as, _ = body.List[0].(*ast.AssignStmt)
+		}
+		if as == nil || len(as.Lhs) != 2 || len(as.Rhs) != 1 {
+			continue
+		}
+		ta, ok := ast.Unparen(as.Rhs[0]).(*ast.TypeAssertExpr)
+		if !ok || ta.Type == nil || !nodeAliases[identObj(info, ta.X)] {
+			continue
+		}
+		okObj := identObj(info, as.Lhs[1])
+		eb, hasElse := ifs.Else.(*ast.BlockStmt)
+		if okObj != nil && identObj(info, ifs.Cond) == okObj && hasElse && descendsOnly(eb) && len(ifs.Body.List) > 0 && i == len(body.List)-1 {
+			if o := identObj(info, as.Lhs[0]); o != nil {
+				nodeAliases[o] = true
+			}
+			return info.TypeOf(ta.Type), ifs.Body.List[0]
+		}
+	}
 	if len(body.List) < 3 {
 		return nil, nil
 	}
